@@ -35,6 +35,7 @@ func init() {
 			{ID: "C15.R16", Text: "the high sequence numbers the guard compares with are complete and maximal: every node 1..NumServers() is asked and the merge keeps the largest report per vBucket (exhaustive)", Run: seqnoMerge},
 			{ID: "C15.R17", Text: "start-up fails on what it cannot obtain: the client's start and close paths call by call: the stream is opened, the listener subscribed (failure fatal), each optional component started and stopped under exactly its configuration switch (polarity included), Commit is Stream.Save, SetMetadata installs the supplied store, newDcp applies the defaults first and returns every error", Run: clientWiring},
 			{ID: "C15.R18", Text: "the start-up switch on the metadata type and the stream mode read the documented values: IsCouchbaseMetadata ⇔ type == \"couchbase\", IsFileMetadata ⇔ type == \"file\", IsDcpModeFinite ⇔ mode == \"finite\" (exhaustive)", Run: configPredicates},
+			{ID: "C15.R19", Text: "start-up does not go on without the server's version and bucket description: every fallible step of the REST client (ping, request, decode, version parse) reports its error on the edges on which it is non-nil, and no method returns (nil, nil)", Run: restStepErrors},
 			{ID: "C15.R6", Text: "bounded reopen then fail-stop (same rule as C12.R3)", Run: c12r3},
 		},
 	})
